@@ -33,6 +33,7 @@ func (c *VerifCtx) verifyFunction(ct *Contract) (res *FuncResult) {
 	res = &FuncResult{Contract: ct, Name: contractName(ct)}
 	ex := NewExec(c)
 	ex.root = ct.Fn
+	ex.alloc0 = nil
 	ex.rootName = res.Name
 	ex.curProps = ct.Props
 	defer func() {
@@ -48,6 +49,7 @@ func (c *VerifCtx) verifyFunction(ct *Contract) (res *FuncResult) {
 	fn := ct.Fn
 	info := c.infoOf[ct.StubObj.Pkg()]
 	st0 := NewState()
+	ex.alloc0 = st0.get("alloc", SArr(SRef, SBool))
 	TrueT := True
 	ex.assumes = append(ex.assumes, And(BVSle(BV(0, 64), st0.get("ghost|clock", SBV(64))), BVSlt(st0.get("ghost|clock", SBV(64)), BV(1<<62, 64))))
 	var args []Value
